@@ -243,7 +243,22 @@ pub fn run(run: &mut Run) {
         let mut p = prepare(sc);
         p.node.ctx.install();
         // what is on disk before the interrupted snapshot
-        let before_dbs = load_copy(&p.node.ctx.dir).expect("completed snapshot must load");
+        let kind0 = if sc.reclaim { "reclaim" } else { "incremental" };
+        let name0 = sc.name.split(" reclaim=").next().unwrap_or("").split('@').next().unwrap_or("").to_string();
+        let before_dbs = match load_copy(&p.node.ctx.dir) {
+            Ok(d) => d,
+            Err(e) => {
+                // not even the completed snapshots of the scenario's history can be started from
+                run.violate(Violation {
+                    clause: "startup-panic".into(),
+                    shape: format!("{} [{}] no kill at all: the completed snapshots before the interrupted one ({})", kind0, name0, HISTORIES[sc.history]),
+                    detail: format!("scenario `{}`: start-up on the directory left by completed snapshots: {}", sc.name, e),
+                    replay: json!({"engine":"crash","property":"C11","scenario":sc.name,"crash_after_syscalls":-1}),
+                });
+                p.node.remove_dir();
+                continue;
+            }
+        };
         let disk0: BTreeMap<String, SnapState> = ["t", "u"].iter().map(|d| (d.to_string(), snap_state_of(&before_dbs, d).unwrap())).collect();
         let mut extra_sessions = vec![];
         for (op, k, v) in sc.changes.iter() {
@@ -288,7 +303,20 @@ pub fn run(run: &mut Run) {
         }
         syscalls += ops.len() as u64;
         // what the completed snapshot leaves
-        let after_dbs = load_copy(&out.join(format!("state-{}", ops.len()))).expect("completed snapshot must load");
+        let after_dbs = match load_copy(&out.join(format!("state-{}", ops.len()))) {
+            Ok(d) => d,
+            Err(e) => {
+                run.violate(Violation {
+                    clause: "startup-panic".into(),
+                    shape: format!("{} [{}] no kill at all: the snapshot ran to its end", kind0, name0),
+                    detail: format!("scenario `{}`: start-up on the directory left by the completed snapshot: {}", sc.name, e),
+                    replay: json!({"engine":"crash","property":"C11","scenario":sc.name,"crash_after_syscalls":ops.len()}),
+                });
+                let _ = std::fs::remove_dir_all(&out);
+                p.node.remove_dir();
+                continue;
+            }
+        };
         let disk1: BTreeMap<String, SnapState> = ["t", "u"].iter().map(|d| (d.to_string(), snap_state_of(&after_dbs, d).unwrap())).collect();
         for k in 0..=ops.len() {
             let dir = out.join(format!("state-{}", k));
